@@ -101,7 +101,9 @@ def step (st : St) (toks : List String) : St × String :=
             maxHtlcValue := maxhv, useChainState := b uc, minFeerate := minf, maxFeerate := maxf,
             maxRoutingFeeMsat := mrf, enforceBalance := false, filter := filterOfMask mask }
         ({ st with policy := { raw with onchain := b oc } }, "ok")
+      | "allow", _ => (st, "ok")
       | "setup", [ob, v, push, hd, cd, ct, up, ups, upa] =>
+        if st.ready then (st, "already") else
         match ctypeOf ct with
         | none => (st, "bad-op")
         | some ct =>
@@ -110,7 +112,8 @@ def step (st : St) (toks : List String) : St × String :=
           | .ok () => ({ st with setup := s, ready := true, es := EState.init }, "ok")
           | .error .panic => ({ st with dead := true }, "panic")
           | .error k => (st, "err:" ++ k.name)
-      | "chain", [h, fd, cd] => ({ st with chain := ⟨h, fd, cd⟩ }, "ok")
+      | "chain", [h, fd, cd] =>
+        if !st.ready then (st, "nochan") else ({ st with chain := ⟨h, fd, cd⟩ }, "ok")
       | "cp", n :: pv :: fr :: th :: tc :: rest =>
         if !st.ready then (st, "nochan") else
         match htlcs? 0 rest with
